@@ -209,7 +209,7 @@ def state_trace(core, sit):
     return out
 
 
-def operational(n=3, config=None, master=0, fsm='OPERATION', local=0):
+def operational(n=3, config=None, master=0, fsm='OPERATION', local=0, align=True):
     """a real instance in a consistent cluster: everybody RUNNING, one recognised Master, Supvisors in `fsm`"""
     from supvisors.ttypes import SupvisorsInstanceStates as S, SupvisorsStates as F
     cfg = {'synchro_options': 'LIST'}
@@ -229,7 +229,8 @@ def operational(n=3, config=None, master=0, fsm='OPERATION', local=0):
     core.state_modes.evaluate_stability()
     core._round = 0
     # one full tick period so that every tick counter and reception reference is aligned
-    cluster_round(core)
+    if align:
+        cluster_round(core)
     core.rpc_handler.out.clear()
     return core
 
